@@ -125,7 +125,9 @@ func (c *connectionRequest) connect(ctx context.Context) (*connectionResult, err
 			}
 			c.player.handleDisconnectWithReason(result.attemptedConn, reason, false)
 		}
-		c.player.resetInFlightConnection()
+		// The in-flight slot of this request's own attempt was already released by
+		// internalConnect. It must not be reset here: a request that was refused as
+		// "in progress" would wipe the slot of the attempt that is in progress.
 	}
 	return result, err
 }
